@@ -336,9 +336,16 @@ func (c *Ctx) checkWG(fn *ssa.Function, wg *ssa.Alloc) (bool, string, string) {
 	// path predicate: the guard of Add
 	var pcond ssa.Value
 	pbranch := false
+	headers := map[*ssa.BasicBlock]bool{}
+	for _, l := range an.Loops(fn) {
+		headers[l.Header] = true
+	}
 	for _, g := range an.BlockGuards(add.Block()) {
-		if g.If != nil && an.CanReach(g.If, g.If) {
+		if g.If != nil && headers[g.If.Block()] {
 			continue // a loop condition is not a scenario
+		}
+		if g.If != nil && isErrTest(g.Cond) {
+			continue // `if err := sm.Acquire(…); err != nil` decides whether the element is started at all, not the scenario
 		}
 		pcond, pbranch = g.Cond, g.Branch
 		break
@@ -1070,4 +1077,13 @@ func dedupStrings(in []string) []string {
 		}
 	}
 	return out
+}
+
+// isErrTest: cond compares an error value with nil.
+func isErrTest(cond ssa.Value) bool {
+	bo, ok := cond.(*ssa.BinOp)
+	if !ok {
+		return false
+	}
+	return (an.IsNilConst(bo.Y) && an.IsErrorType(bo.X.Type())) || (an.IsNilConst(bo.X) && an.IsErrorType(bo.Y.Type()))
 }
